@@ -5,6 +5,7 @@ package main
 import (
 	"fmt"
 	"os"
+	"os/exec"
 	"runtime"
 	"sort"
 	"strings"
@@ -114,6 +115,116 @@ func keys(m map[string]int) []string {
 	return ks
 }
 
+// conformRace (race build only): the same programs are free of data races in Go (checked natively with
+// `go test -race` when they were written), so ThreadSanitizer -- which sees the program's own
+// synchronisation only through the REAL primitive behind every shim, the scheduler's hand-offs being
+// hidden -- must report nothing in any explored schedule. A report here means a shim creates fewer
+// happens-before edges than the primitive it models (C01 would then raise false alarms on code that uses
+// that primitive correctly).
+func conformRace() int {
+	if !vrt.RaceBuild {
+		fmt.Println("conform-race needs the -race build (bin/conc_race)")
+		return 2
+	}
+	dir := os.Getenv("VERIF_TSAN_DIR")
+	if dir == "" {
+		// re-exec with a log directory for the race detector
+		d, err := os.MkdirTemp("", "verif-conform-")
+		if err != nil {
+			return 2
+		}
+		defer os.RemoveAll(d)
+		cmd := exec.Command(os.Args[0], "conform-race", "-")
+		cmd.Env = append(os.Environ(), "VERIF_TSAN_DIR="+d, "GORACE=halt_on_error=0 exitcode=0 log_path="+d+"/tsan")
+		cmd.Stdout, cmd.Stderr = os.Stdout, os.Stderr
+		if err := cmd.Run(); err != nil {
+			if ee, ok := err.(*exec.ExitError); ok {
+				return ee.ExitCode()
+			}
+			return 2
+		}
+		return 0
+	}
+	logPath := fmt.Sprintf("%s/tsan.%d", dir, os.Getpid())
+	var off int64
+	grown := func() string {
+		fi, err := os.Stat(logPath)
+		if err != nil || fi.Size() <= off {
+			return ""
+		}
+		f, err := os.Open(logPath)
+		if err != nil {
+			return ""
+		}
+		defer f.Close()
+		buf := make([]byte, fi.Size()-off)
+		f.ReadAt(buf, off)
+		off = fi.Size()
+		return string(buf)
+	}
+	bad := 0
+	fmt.Println("happens-before conformance of the shims (race build: no report in any schedule of a race-free program)")
+	for _, sp := range shim.All {
+		if only := os.Getenv("VERIF_CONFORM_ONLY"); only != "" && sp.Name != only {
+			continue
+		}
+		if cs := os.Getenv("VERIF_CONFORM_CHOICES"); cs != "" { // debugging aid: one execution
+			var choices []int
+			for _, f := range strings.Split(cs, ",") {
+				var v int
+				fmt.Sscan(f, &v)
+				choices = append(choices, v)
+			}
+			x := vrt.Run(choices, 20000, false, func() { sp.F() })
+			vrt.Run(nil, 20000, true, func() {})
+			fmt.Println("schedule", x.Schedule(), "\n", grown())
+			continue
+		}
+		var out string
+		e := &vrt.Explorer{Horizon: 20000, Quick: false, Budget: 20000, Deadline: time.Now().Add(time.Minute), MaxBound: 2}
+		firstBad := ""
+		e.Check = func(x *vrt.Exec) {
+			if firstBad == "" {
+				if fi, err := os.Stat(logPath); err == nil && fi.Size() > off {
+					firstBad = fmt.Sprintf("first reported in the execution with schedule (thread ids) %v, choices %v", x.Schedule(), e.LastChoices)
+				}
+			}
+		}
+		e.Explore(func() { out = sp.F() })
+		vrt.Run(nil, 20000, true, func() {}) // let the detector flush reports of the torn-down execution
+		_ = out
+		rep := grown()
+		st := "ok"
+		if strings.Contains(rep, "DATA RACE") != sp.Racy {
+			st = "FAIL"
+			bad++
+		}
+		note := ""
+		if sp.Racy {
+			note = " (racy on purpose: a report is required)"
+			if st == "FAIL" {
+				note = " (racy on purpose, but NO schedule produced a report: the model synchronises more than Go does)"
+			}
+		}
+		fmt.Printf("  %-4s %-40s %d schedules%s\n", st, sp.Name, e.Execs, note)
+		if st == "FAIL" && !sp.Racy {
+			fmt.Println("       " + firstBad)
+			lines := strings.Split(rep, "\n")
+			if len(lines) > 24 {
+				lines = lines[:24]
+			}
+			fmt.Println("       " + strings.Join(lines, "\n       "))
+		}
+	}
+	if bad > 0 {
+		fmt.Printf("happens-before conformance: %d program(s) FAILED\n", bad)
+		return 2
+	}
+	fmt.Println("happens-before conformance: all programs ok")
+	return 0
+}
+
 func init() {
 	subcommands["conform"] = func(string) { os.Exit(conform()) }
+	subcommands["conform-race"] = func(string) { os.Exit(conformRace()) }
 }
